@@ -294,7 +294,11 @@ pub fn run(req: &J) -> J {
     let mut probe_texts: Vec<String> = vec!["zzundefq = 1".to_string(), "zzundefq[1] = 1".to_string(), "zzundefq += 1".to_string(),
       // destructuring with one target more than the tuple has elements: fails and defines nothing
       "(zzq1, zzq2, zzq3) := (1, 2)".to_string(), "zzt := (1, 2)".to_string(), "(zzq4, zzq5, zzq6) := zzt".to_string(),
-      "(zzq7, zzq8) := (1, 2, 3)".to_string()];
+      "(zzq7, zzq8) := (1, 2, 3)".to_string(),
+      // calls of user functions whose body PANICS (unsigned underflow, out-of-range index): the statement fails, nothing changes -
+      // in particular the caller's names are all still there (the function's scope must be left on every exit path)
+      "zzdec(n<u64>) = r<u64> :=\n  r := n - 1u64.".to_string(), "zzat(m<[f64]>) = r<f64> :=\n  r := m[7].".to_string(),
+      "zzpq := zzdec(0u64)".to_string(), "zzat([1 2 3])".to_string(), "zzpw := zzdec(0u64) + 1u64".to_string()];
     for (i, n) in names.iter().enumerate() {
       probe_texts.push(format!("{}", n));
       probe_texts.push(format!("{} := 1", n));
